@@ -1,5 +1,6 @@
 import GqlProofs.ValidateRules
 import GqlProofs.ValidateOverlapSound
+import GqlProofs.ValidateOverlapComplete
 /-! # C02 (graph rules, overlap rule) and the C09 / C19 termination-and-cost facts of validation
 
 Every theorem here is about the models of `GqlModel/Validate/Graph.lean` and `GqlModel/Validate/Overlap.lean`
@@ -254,24 +255,59 @@ theorem overlap_reject_sound (s : Schema) (d : Document) (h : cohB s d (envM s d
   rcases overlap_sound s d h x hx with ⟨cs, hcs, a, b, ha, hb, hk, _, hp⟩
   exact ⟨cs, hcs, a, b, ha, hb, hk, hp⟩
 
-/- T2 (stretch, NOT proved) `overlap_memo_iff_naive`, full statement:
+/-! ## OverlappingFieldsCanBeMerged: completeness on acyclic fragment tables, and the iff -/
 
-   theorem overlap_memo_iff_naive (s : Schema) (d : Document) (h : cohB s d (envM s d) = true) :
-       overlappingFieldsCanBeMerged s d ≠ [] ↔
-         ∃ cs, cs ∈ typedSelSets s d ∧ SetConflict (envM s d) cs.1.parent cs.2
+/-- T2 `overlap_complete_acyclic`: on a document whose fragment spread graph is acyclic (`acyclicB` = the cycle rule
+reports nothing), with unique fragment names and the decidable side conditions of `compB` (parent-type coherence
+`cohB`, `argsFaithfulB`: printing is injective on the argument values that occur, `apartB`: locations separate
+fragment bodies from the other selection sets — all evaluated by the drivers on every input), if SOME visited
+selection set violates FieldsInSetCanMerge — two fields of its fully flattened field set, however deeply nested in
+fragment spreads, with one response key that cannot be merged — then the memoised algorithm reports an error.
+Proof: operational coverage invariant of the memo tables (`overlapRun_cov`: every skipped comparison was executed
+under a not-weaker flag, every executed body's comparisons are covered) + induction on a measure that decreases along
+nesting and along spreads (`cert`; this is where acyclicity is used) + no fuel exhaustion. -/
+theorem overlap_complete_acyclic (s : Schema) (d : Document) (h : compB s d (envM s d) = true)
+    (hconf : ∃ cs, cs ∈ typedSelSets s d ∧ SetConflict (envM s d) cs.1.parent cs.2) :
+    overlappingFieldsCanBeMerged s d ≠ [] := by
+  intro hnil
+  apply complete_acyclic s d h hconf
+  simpa [overlappingFieldsCanBeMerged] using hnil
 
-   Proved part: direction → is `overlap_reject_sound` above (`overlap_memo_iff_naive_partial`); termination and
-   the at-most-once property of the memo bodies (`overlap_no_fuel_exhaustion`, `memo_body_at_most_once`) are the two
-   ingredients of ← that are done. Missing for ←: the coverage invariant of the memo tables — a (fieldsInfo,
-   fragment) or (fragment, fragment) comparison is skipped only if it was made before under a not-weaker
-   exclusivity flag (`Inv.ffHas` / `Inv.bfHas` record exactly this about `Has`), hence every pair of `flat` of every
-   visited set has been compared by SOME visit — plus the converse of `sameArguments_of_sameArgsS` (injectivity of
-   value printing) and the first-conflict-per-pair structure of `subfieldConflicts`. Until then accept/reject of the
-   overlap rule is decided by correspondence against S (`overlapS`) in harness/cmd/c02 and harness/cmd/c02overlap. -/
-theorem overlap_memo_iff_naive_partial (s : Schema) (d : Document) (h : cohB s d (envM s d) = true) :
-    overlappingFieldsCanBeMerged s d ≠ [] →
-      ∃ cs, cs ∈ typedSelSets s d ∧ SetConflict (envM s d) cs.1.parent cs.2 :=
-  overlap_reject_sound s d h
+/-- T2 `overlap_memo_iff_naive` on acyclic fragment tables: the memoised A–J algorithm reports a conflict iff some
+selection set violates the brute-force FieldsInSetCanMerge, document-wide. -/
+theorem overlap_iff_naive_acyclic (s : Schema) (d : Document) (h : compB s d (envM s d) = true) :
+    overlappingFieldsCanBeMerged s d ≠ [] ↔
+      ∃ cs, cs ∈ typedSelSets s d ∧ SetConflict (envM s d) cs.1.parent cs.2 := by
+  have hcoh : cohB s d (envM s d) = true := by
+    simp only [compB, Bool.and_eq_true] at h; exact h.1.1.1.1
+  exact ⟨overlap_reject_sound s d hcoh, overlap_complete_acyclic s d h⟩
+
+/-- the side conditions of `compB` that are not rules of their own -/
+def sideB (s : Schema) (d : Document) : Bool :=
+  cohB s d (envM s d) && argsFaithfulB s d (envM s d) && apartB d (fragDefs d)
+
+/-- **the headline clause of C02**: if NoFragmentCycles, UniqueFragmentNames (`uniqueFragNames`) and
+OverlappingFieldsCanBeMerged all report nothing, then no selection set of the document violates
+FieldsInSetCanMerge — no two fields that can land on one response key differ in name, arguments or response shape,
+however deeply one of them is nested in fragment spreads. (`sideB`: decidable side conditions, true for
+parser-produced documents apart from `__schema`/`__type` sub-selections, checked by the drivers on every input.) -/
+theorem accepted_document_has_no_conflict (s : Schema) (d : Document) (hside : sideB s d = true)
+    (hcyc : noFragmentCycles s d = []) (huniq : uniqueFragNames d = true)
+    (hov : overlappingFieldsCanBeMerged s d = []) :
+    ∀ cs, cs ∈ typedSelSets s d → FieldsInSetCanMerge (envM s d) cs.1.parent cs.2 := by
+  have hcomp : compB s d (envM s d) = true := by
+    simp only [sideB, Bool.and_eq_true] at hside
+    simp only [compB, Bool.and_eq_true, acyclicB, List.isEmpty_iff]
+    exact ⟨⟨⟨⟨hside.1.1, huniq⟩, hcyc⟩, hside.1.2⟩, hside.2⟩
+  intro cs hcs hconf
+  exact overlap_complete_acyclic s d hcomp ⟨cs, hcs, hconf⟩ hov
+
+/- Remaining gap of the full T2 `overlap_memo_iff_naive` (no acyclicity hypothesis):
+   theorem overlap_memo_iff_naive (s d) (h : cohB … ∧ argsFaithfulB … ∧ apartB …) :
+       overlappingFieldsCanBeMerged s d ≠ [] ↔ ∃ cs ∈ typedSelSets s d, SetConflict (envM s d) cs.1.parent cs.2
+   On CYCLIC fragment tables the operational half (`overlapRun_cov`) still holds, but `cert` does not go through:
+   a comparison can be answered by a memo entry that is still being executed (pending), so the induction needs a
+   coinductive argument instead of a decreasing measure. Such documents are rejected by NoFragmentCycles anyway. -/
 
 /-! ### non-vacuity: a coherent document on which the rule reports a conflict through a fragment spread -/
 
@@ -295,6 +331,19 @@ def exDoc : Document :=
 
 example : cohB exSchema exDoc (envM exSchema exDoc) = true ∧ locsDistinct exDoc = true := by decide +kernel
 example : overlappingFieldsCanBeMerged exSchema exDoc ≠ [] := by decide +kernel
+example : compB exSchema exDoc (envM exSchema exDoc) = true := by decide +kernel
 example : (overlapM exSchema exDoc).1.oof = false ∧ (overlapM exSchema exDoc).1.cntFF ≥ 1 := by decide +kernel
+
+/-- `{ i { x: n ...F } }  fragment F on I { x: n }` — accepted; all hypotheses of the headline corollary hold -/
+def okDoc : Document :=
+  ⟨[.operation .query none [] []
+      (.mk [.field none (nmAt "i" 2) [] []
+        (some (.mk [.field (some (nmAt "x" 6)) (nmAt "n" 9) [] [] none ⟨6, 10⟩, .spread (nmAt "F" 14) [] ⟨11, 15⟩]
+          ⟨4, 17⟩)) ⟨2, 17⟩] ⟨0, 19⟩) ⟨0, 19⟩,
+    .fragment (nmAt "F" 30) (.named "I" ⟨35, 36⟩) []
+      (.mk [.field (some (nmAt "x" 39)) (nmAt "n" 42) [] [] none ⟨39, 43⟩] ⟨37, 45⟩) ⟨21, 45⟩], ⟨0, 45⟩⟩
+
+example : sideB exSchema okDoc = true ∧ noFragmentCycles exSchema okDoc = [] ∧ uniqueFragNames okDoc = true ∧
+    overlappingFieldsCanBeMerged exSchema okDoc = [] := by decide +kernel
 
 end GqlModel.Validate.Overlap
